@@ -22,6 +22,38 @@ Theorem cid_alias (n : Z) : bytes_to_scalar_reduced (K:=Fq) (Z_to_le 32 n) = byt
 Proof. split; [reflexivity|]. rewrite !of_Z_fq. unfold fq. apply Zq_eq. cbn [val zq_of_Z].
   rewrite <- (Z_mod_plus_full n 1 q_bls). f_equal; lia. Qed.
 
+(** ... and ONLY those: two integers have one scalar exactly when they are congruent modulo q. So the known class (ids
+    congruent modulo q) is the whole set of invisible channel-id substitutions; every other substitution changes the scalar *)
+Theorem scalars_equal_iff_congruent (n n' : Z) : @of_Z Fq n = @of_Z Fq n' <-> n mod q_bls = n' mod q_bls.
+Proof. rewrite !of_Z_fq. unfold fq. split.
+  - intros E. apply (f_equal (@val q_bls)) in E. exact E.
+  - intros E. apply Zq_eq. exact E. Qed.
+
+Corollary cid_bit_flip_changes_scalar (n : Z) (k : Z) : 0 <= k < 256 -> @of_Z Fq n <> @of_Z Fq (n + 2 ^ k) /\ @of_Z Fq n <> @of_Z Fq (n - 2 ^ k).
+Proof. intros Hk. assert (P : 0 < 2 ^ k < q_bls \/ q_bls < 2 ^ k < 2 * q_bls).
+  { assert (B : k <= 254 \/ k = 255) by lia. destruct B as [B| ->].
+    - left. split; [apply Z.pow_pos_nonneg; lia|]. apply Z.le_lt_trans with (2 ^ 254); [apply Z.pow_le_mono_r; lia | apply Z.ltb_lt; reflexivity].
+    - right. split; apply Z.ltb_lt; reflexivity. }
+  assert (NZ : (2 ^ k) mod q_bls <> 0).
+  { destruct P as [[P1 P2]|[P1 P2]].
+    - rewrite Z.mod_small; lia.
+    - replace (2 ^ k) with ((2 ^ k - q_bls) + 1 * q_bls) by lia. rewrite Z_mod_plus_full, Z.mod_small; lia. }
+  assert (Q0 : 0 < q_bls) by (apply Z.ltb_lt; reflexivity).
+  split; rewrite scalars_equal_iff_congruent; intros E; apply NZ.
+  - assert (D : (n + 2 ^ k - n) mod q_bls = 0) by (rewrite Zminus_mod, <- E, Z.sub_diag; reflexivity).
+    replace (n + 2 ^ k - n) with (2 ^ k) in D by lia. exact D.
+  - assert (D : (n - (n - 2 ^ k)) mod q_bls = 0) by (rewrite Zminus_mod, <- E, Z.sub_diag; reflexivity).
+    replace (n - (n - 2 ^ k)) with (2 ^ k) in D by lia. exact D. Qed.
+
+(** integers closer than q have different scalars: in particular the scalar encoding is injective on all i64 amounts and
+    on all u64 balances *)
+Theorem scalar_encoding_injective_within_q (a a' : Z) : - q_bls < a - a' < q_bls -> @of_Z Fq a = @of_Z Fq a' -> a = a'.
+Proof. intros Hd E. apply scalars_equal_iff_congruent in E.
+  assert (Q0 : 0 < q_bls) by (apply Z.ltb_lt; reflexivity).
+  assert (D : (a - a') mod q_bls = 0) by (rewrite Zminus_mod, E, Z.sub_diag; reflexivity).
+  apply Z.mod_divide in D; [|lia]. destruct D as [t Ht].
+  assert (t = 0) by nia. lia. Qed.
+
 Theorem cid_alias_exists : exists n n' : Z, n <> n' /\ 0 <= n < 2 ^ 256 /\ 0 <= n' < 2 ^ 256 /\ @of_Z Fq n = @of_Z Fq n'.
 Proof. exists 5, (5 + q_bls). split; [unfold q_bls; lia|]. split; [lia|]. split; [unfold q_bls; lia|].
   apply cid_alias. Qed.
